@@ -23,7 +23,7 @@ LEVEL = "model_checking"
 ASSUMPTIONS = ["selectors symbolic, class generation concrete per leaf (executed natively)", "harness component templates built on public base classes"]
 OUTSIDE = ["with_context_key variants of the model-fitting workflow", "third-party factories"]
 KINDS = ["operation", "probe", "data-source", "payload-source", "data-sink", "payload-sink", "slice-operation", "slice-probe", "sweep-source", "sweep-operation", "sweep-probe",
-         "context-processor", "rename", "delete", "template", "io-subclass-source", "io-subclass-sink", "sliced-then-probed-pipeline", "io-dual-role", "slice-of-sweep-probe"]
+         "context-processor", "rename", "delete", "template", "io-subclass-source", "io-subclass-sink", "sliced-then-probed-pipeline", "io-dual-role", "slice-of-sweep-probe", "context-processor-with-context-key"]
 KEYS = ("a", "b", "out")
 
 
@@ -200,6 +200,22 @@ def _mk(kind: str, ti: int, to: int, mask: int, parent_first: bool):
         def _process_logic(self, a: int = 0):
             return None
 
+    class CpKey(ContextProcessor):
+        """context processor whose output key can be bound per node through `context_key` (with_context_key protocol)"""
+
+        OUT = "default.key"
+
+        @classmethod
+        def with_context_key(cls, key):
+            return type("%s_OUT_%s" % (cls.__name__, key.replace(".", "_")), (cls,), {"OUT": key, "__doc__": "bound to %s" % key})
+
+        @classmethod
+        def get_created_keys(cls):
+            return [cls.OUT] + list(keys)
+
+        def _process_logic(self, a: int = 0):
+            self._notify_context_update(self.__class__.OUT, a)
+
     sweep = lambda extra: {"parameter_sweep": dict({"variables": {"t": {"values": [1, 2]}}}, **extra)}
     E: Dict[str, Any] = {"kind": kind}
     if kind == "operation":
@@ -270,6 +286,9 @@ def _mk(kind: str, ti: int, to: int, mask: int, parent_first: bool):
         node = _pipeline_node_factory({"processor": S, "context_key": "ck"}, lib.QUIET)
         _ = type(node.processor).get_metadata()  # must be computable (the generated classes are ordinary components)
         E.update(keys=sorted(type(node).get_created_keys()), mirror_only=True, proc=S)
+    elif kind == "context-processor-with-context-key":
+        node = _pipeline_node_factory({"processor": CpKey, "parameters": {"context_key": "fit.coeff"}}, lib.QUIET)
+        E.update(inp=None, out=None, keys=["fit.coeff"] + keys, ctxproc=True, same_keys_as_processor=True)
     elif kind == "io-dual-role":
         # whichever role the framework gives a class that is both a source and a sink, node and wrapped adapter must agree
         node = _pipeline_node_factory({"processor": Store, "parameters": {}}, lib.QUIET)
@@ -311,7 +330,7 @@ def _sibling(kind: str) -> None:
         "context-processor": {"processor": lib.CpSum, "parameters": {}}, "rename": {"processor": "rename:x:y"}, "delete": {"processor": "delete:x"}, "template": {"processor": 'template:"{x}":y'},
         "io-subclass-source": {"processor": lib.SrcD, "parameters": {}}, "io-subclass-sink": {"processor": lib.Snk, "parameters": {}},
         "sliced-then-probed-pipeline": {"processor": make_slicer(lib.OpAddDef, lib.IntColl), "parameters": {}}, "io-dual-role": {"processor": lib.SrcD, "parameters": {}},
-        "slice-of-sweep-probe": {"processor": make_slicer(lib.PrVal, lib.IntColl), "context_key": "k2"},
+        "slice-of-sweep-probe": {"processor": make_slicer(lib.PrVal, lib.IntColl), "context_key": "k2"}, "context-processor-with-context-key": {"processor": lib.CpSum, "parameters": {}},
     }
     _pipeline_node_factory(cfgs[kind], lib.QUIET)
 
@@ -342,6 +361,8 @@ def scenario(kind: str, ti: int, to: int, mask: int, parent_first: bool, later_s
             return Fail("C16.P1:%s:node-output-type" % kind, "node declares output %s, expected %s" % (getattr(ncls.output_data_type(), "__name__", None), E["out"].__name__))
     if sorted(ncls.get_created_keys()) != sorted(E["keys"]):
         return Fail("C16.P1:%s:node-created-keys" % kind, "node declares created keys %r, expected %r" % (sorted(ncls.get_created_keys()), sorted(E["keys"])))
+    if E.get("same_keys_as_processor") and sorted(ncls.get_created_keys()) != sorted(pcls.get_created_keys()):
+        return Fail("C16.P1:%s:node-vs-processor-created-keys" % kind, "node class declares created keys %r, the processor instance it runs declares %r" % (sorted(ncls.get_created_keys()), sorted(pcls.get_created_keys())))
     if "suppressed" in E and sorted(ncls.get_suppressed_keys()) != sorted(E["suppressed"]):
         return Fail("C16.P1:%s:node-suppressed-keys" % kind, "node declares suppressed keys %r, expected %r" % (sorted(ncls.get_suppressed_keys()), sorted(E["suppressed"])))
     if "proc" in E and pcls is not E["proc"]:
@@ -387,7 +408,7 @@ def _replay(kind, a):
 def obligations(tier: str) -> List[Ob]:
     return [
         Ob("C16.P", _make, _replay, params=list(KINDS), budget=600,
-           bound="20 wrapping paths (incl. a class that is both source and sink, and slicers around sweep-generated classes); whether a second, different node of the same kind is generated before the catalogue is consulted (flag); input and output type from a 4-type lattice (incl. a nested class whose __qualname__ differs from its __name__), created-key set as a 3-bit mask, wrapping-order flag (subclass before/after parent) - all symbolic selectors; every leaf builds real nodes through the real factories",
+           bound="21 wrapping paths (incl. a class that is both source and sink, and slicers around sweep-generated classes); whether a second, different node of the same kind is generated before the catalogue is consulted (flag); input and output type from a 4-type lattice (incl. a nested class whose __qualname__ differs from its __name__), created-key set as a 3-bit mask, wrapping-order flag (subclass before/after parent) - all symbolic selectors; every leaf builds real nodes through the real factories",
            targets=["semantiva/pipeline/nodes/_pipeline_node_factory.py:_pipeline_node_factory", "semantiva/data_processors/io_operation_factory.py:_IOOperationFactory.create_data_operation", "semantiva/data_processors/data_slicer_factory.py:_SlicingDataProcessorFactory.create", "semantiva/data_processors/parametric_sweep_factory.py:ParametricSweepFactory.create", "semantiva/context_processors/factory.py:_context_renamer_factory", "semantiva/contracts/expectations.py:validate_component"], stubs=["str"]),
     ]
 
